@@ -86,8 +86,17 @@ def run(ctx):
                 nfiles_a += 1
         # (b) boundary sweep: samples within one sample period of a file / subdirectory boundary
         ntrip = 0
-        for _ in range(ctx.pick(250, 15000)):
+        # rates whose long double value rounds upward (x/3 with x a power of two times 5^k), file boundaries that fall exactly
+        # on a sample, crossed by one contiguous write: always part of the sweep
+        fixed = [(n3, 3, fcx, cont) for n3 in (1000000, 500000, 250000, 125000, 2000000, 100000) for fcx in (3, 6, 1000, 30)
+                 for cont in (True, False)]
+        rng.shuffle(fixed)
+        fixed = fixed[:ctx.pick(24, 48)]
+        for it in range(ctx.pick(250, 15000)):
             n, d, fc = cg.random_rate(rng, 10**7)
+            forced = None
+            if it < len(fixed):
+                n, d, fc, forced = fixed[it]
             k = rng.choice([1, 2, 5, 10, 60])
             sc_ms = fc * k
             while sc_ms % 1000:
@@ -112,7 +121,9 @@ def run(ctx):
             mode = rng.choice(["gapped", "gapped", "contC", "contU"])
             if mode == "contU" and fc * n / (1000.0 * d) > 20000:
                 mode = "gapped"
-            rr, nf = pd.boundary_triple(digital_rf, os.path.join(ctx.work, "bt"), rng, n, d, fc, sc, j, mode)
+            if forced is not None:
+                j = (j // 3) * 3 + 3              # with d = 3 every third file boundary (in ms) falls exactly on a sample
+            rr, nf = pd.boundary_triple(digital_rf, os.path.join(ctx.work, "bt"), rng, n, d, fc, sc, j, mode, contig=forced)
             evs += rr
             ntrip += 1
     per = 300
